@@ -466,7 +466,20 @@ func init() {
 		}
 	}
 	reg("math/rand.Uint64", rnd(64, "u64"))
-	reg("math/rand.Uint32", rnd(32, "u32"))
+	reg("math/rand.Uint32", func(ex *Exec, fn *ssa.Function, a []Value) Value {
+		// stated assumption: 32-bit random identifiers (PIT tokens) never repeat
+		var prev []*term.T
+		for _, r := range ex.nondet {
+			if r.Kind == "env" && r.T != nil && r.T.W == 32 && strings.HasPrefix(r.Name, "rand.u32") {
+				prev = append(prev, r.T)
+			}
+		}
+		t := rnd(32, "u32")(ex, fn, a).(*term.T)
+		for _, p := range prev {
+			ex.Assume(term.Ne(t, p))
+		}
+		return t
+	})
 	reg("math/rand.Int63", func(ex *Exec, fn *ssa.Function, a []Value) Value {
 		t := rnd(64, "i63")(ex, fn, a).(*term.T)
 		return term.LShr(t, term.Const(64, 1))
